@@ -2,6 +2,7 @@ package authsim
 
 import (
 	"sort"
+	"time"
 	"strings"
 
 	"github.com/miekg/dns"
@@ -24,6 +25,9 @@ type Truth struct {
 	// OptOut: the denial (or the insecurity proof) rests on an NSEC3 opt-out span.
 	OptOut   bool
 	Kind     string // answer nodata nxdomain
+	// Bogus: a zone on the secure path publishes signatures whose validity window does
+	// not include the run (expired, or not yet valid): nothing from it can validate.
+	Bogus    bool
 	Wildcard bool
 	Loop     bool
 }
@@ -72,6 +76,13 @@ func (w *World) Truth(name string, qtype uint16) *Truth {
 			return t
 		}
 		z := path[len(path)-1]
+		if sec {
+			for _, pz := range path {
+				if pz.Signed && (pz.SigTo.Before(w.Epoch.Add(time.Hour)) || pz.SigFrom.After(w.Epoch.Add(24*time.Hour))) {
+					t.Bogus = true
+				}
+			}
+		}
 		t.Zone = z
 		t.Zones = append(t.Zones, z)
 		t.Final = name
